@@ -634,6 +634,9 @@ def body(ctx):
                 if nanmode == "complete" and nv >= 1 and ndom == nv:
                     ctx.finding(sg + "/complete/empty_front", "every point of a complete data set is flagged dominated", case)
                 okc, neg = guarded(sg, lambda: [int(v) for v in sutils.pareto_front(-arr, -o)], {**case, "negated": True})
+                if okc:
+                    # right-hand side of the orientation theorem, executed by the model: orientation -o on the negated rows
+                    add(f"paretoneg {-o} {C.fmat(d) if nv else '[]'}", "pareto", neg, {**case, "negated": True})
                 if okc and neg != res:
                     ctx.finding(sg + "/orientation_is_not_negation", "pareto_front(-data, -orientation) differs from pareto_front(data, orientation)",
                                 {**case, "got": res, "negated": neg})
@@ -646,6 +649,17 @@ def body(ctx):
                     ctx.hist['pareto_front/caller_edit/' + how] = ctx.hist.get('pareto_front/caller_edit/' + how, 0) + 1
                     step('pareto_front/after_caller_edit')
         attempt('pareto_front', one_case)
+
+    # ---- the wrapper's shape guard: only 2-dimensional data reach the kernel
+    for arr_ in (np.arange(4.), np.arange(8.).reshape(2, 2, 2), np.array(3.0), np.arange(6.).reshape(3, 2)):
+        try:
+            r_ = [int(v) for v in np.asarray(sutils.pareto_front(arr_, 1)).ravel()]
+            impl = "ok " + C.ilist(r_)
+        except Exception:
+            impl = "err"
+        rows = arr_.tolist() if arr_.ndim == 2 else []
+        add(f"paretond {arr_.ndim} 1 {C.fmat(rows) if rows else '[]'}", "paretond", impl, {"shape": list(arr_.shape)})
+        ctx.count(("paretond", arr_.shape), False, f"pareto_front/ndim={arr_.ndim}/" + impl.split(" ")[0])
 
     # ================================================================ box statistics
     def cov_pair():
@@ -1040,6 +1054,8 @@ def body(ctx):
                     pu = [float(v) for v in norm.ppf(np.array(u))] if u else []
                     ok = rk == impl[2] and len(pu) == len(impl[1]) and \
                         all((a != a and b != b) or a == b or abs(a - b) <= 1e-10 * max(1.0, abs(a)) for a, b in zip(pu, impl[1]))
+            elif kind == "paretond":
+                ok = (rep == impl) if impl != "err" else toks[0] == "err"
             elif kind == "pareto":
                 ok = [int(t) for t in C.parse_list(rep)] == impl
             elif kind == "box":
